@@ -556,6 +556,8 @@ def run(pid, tier, seed, only_case=None):
     cases.sort(key=lambda c: 0 if (c["kind"] == "dummy" and c["pat"]["family"] == "four") or c.get("eri") else 1)
     out = common.pmap(_dispatch, cases)
     for c, r in zip(cases, out):
+        if common.impl_failure(ctx, r, c, "c09", c["kind"]):
+            continue
         ctx.replayed += 1
         ctx.case_done((c["kind"],) + tuple(r.get("sig", ())))
         ctx.note_dev(c["kind"], r["dev"])
